@@ -15,6 +15,26 @@ Definition sigma := prim -> option ty.
 
 Definition shift_ctx (G : ctx) : ctx := map (fun xt => (fst xt, shift 0 (snd xt))) G.
 
+(* Subtyping, as core/src/typecheck/subtyping.rs: one axiom (a record whose fields all have a subtype
+   of U is a dictionary {_ : U}), reflexivity, and congruence on arrays, dictionaries and records. *)
+Inductive sub : ty -> ty -> Prop :=
+| S_Refl : forall T, sub T T
+| S_RecDict : forall r U, rows_sub_all r U -> sub (TRec r) (TDict U)
+| S_Arr : forall T U, sub T U -> sub (TArr T) (TArr U)
+| S_Dict : forall T U, sub T U -> sub (TDict T) (TDict U)
+| S_Rec : forall r s, rows_sub r s -> sub (TRec r) (TRec s)
+with rows_sub_all : rows -> ty -> Prop :=
+| SA_nil : forall U, rows_sub_all RNil U
+| SA_cons : forall f T r U, sub T U -> rows_sub_all r U -> rows_sub_all (RCons f T r) U
+with rows_sub : rows -> rows -> Prop :=
+| SR_nil : rows_sub RNil RNil
+| SR_cons : forall f T U r s, sub T U -> rows_sub r s -> rows_sub (RCons f T r) (RCons f U s).
+
+Scheme sub_mut := Minimality for sub Sort Prop
+with rows_sub_all_mut := Minimality for rows_sub_all Sort Prop
+with rows_sub_mut := Minimality for rows_sub Sort Prop.
+Combined Scheme sub_ind3 from sub_mut, rows_sub_all_mut, rows_sub_mut.
+
 Section Typing.
   Variable Sg : sigma.
 
@@ -46,6 +66,7 @@ Section Typing.
   | T_Cast : forall G e T, has_type G e TDyn -> first_order T = true -> has_type G (Cast e T) T
   | T_Gen : forall G e T, has_type (shift_ctx G) e T -> has_type G e (TForall T)
   | T_Inst : forall G e T S, has_type G e (TForall T) -> has_type G e (subst 0 S T)
+  | T_Sub : forall G e A B, has_type G e A -> sub A B -> has_type G e B
   with has_types : ctx -> list tm -> ty -> Prop :=
   | HT_nil : forall G T, has_types G [] T
   | HT_cons : forall G e es T, has_type G e T -> has_types G es T -> has_types G (e :: es) T
